@@ -261,6 +261,11 @@ pub fn main(table: &[Entry]) {
                 }
             }
             "partial" => {
+                // a callback that bumps is a function of the remainder, which differs between a prefix and the whole
+                // input: for such definitions the one-shot stream is not the yardstick of the partial lexer
+                if def.pats.iter().any(|p| p.cb.as_ref().map(|c| c.bump).unwrap_or(false)) {
+                    continue;
+                }
                 // C07: all split points of short inputs, sampled split points of longer ones
                 let per_def = if thorough { 1500 } else { 220 };
                 let mut chosen: Vec<&Vec<u8>> = set.inputs.iter().filter(|i| !i.is_empty() && i.len() <= 48).collect();
